@@ -393,6 +393,8 @@ def _power(a, b):
         raise Outside('pole')
     if isint(a) and isint(b):
         if y >= 0:
+            if abs(x) > 1 and y * max(1, abs(x).bit_length()) > 4096:
+                raise Outside('result beyond 4096 bits: not evaluated by the model')
             return num(x ** y)
         r = float(x) ** y
         if r == int(r):
@@ -400,7 +402,10 @@ def _power(a, b):
         return R(r)
     if x < 0 and isreal(b) and y != int(y):
         raise Outside('complex result')
-    r = float(x) ** float(y)
+    try:
+        r = float(x) ** float(y)
+    except OverflowError:
+        raise Outside('overflow')
     if not math.isfinite(r):
         raise Outside('overflow')
     if r == int(r):
